@@ -169,6 +169,20 @@ def run(rep):
                     rep.finding_or_violation(key, '%s: %s' % (c['type'], why), rp)
             else:
                 rep.violation('%s: %s (the pinned model does not predict this)' % (c['type'], why), rp)
+        # a REFUSED value must be refused again: the failed call left nothing behind, in the element or anywhere in the process
+        # (every simple type, the battery of C05: strings, enumeration words, numbers around every bound; each constructor call repeated right away)
+        from . import stvalues as _stv
+        sp, _x = _stv.battery(g, rng, foreign_literals=6 if quick else 40)
+        sr = _stv.run_battery(sp)
+        n_ref = 0
+        seen_r = set()
+        for (c_, v_), a in zip(sp, sr):
+            if a[0] != 'ok':
+                n_ref += 1
+                if len(a) > 4 and a[4] != a[0] and c_ not in seen_r:
+                    seen_r.add(c_)
+                    rep.finding_or_violation('C10:refused-twice:' + c_, '%s(%s) is refused with %s; the same call repeated is %s' % (c_, v_, a[0], a[4]), {'class': c_, 'value': v_, 'first': a[0], 'second': a[4]})
+        rep.coverage['refused_values_offered_again'] = n_ref
         n_nested = nested_faults(rep, corp.m, quick)
         corp.coverage({'nested_failing_calls_examined': n_nested, 'failing_operations_in_corpus': nfail, 'failing_operations_examined': len(sites), 'continuation_pairs_run': npairs})
         rep.coverage['evaluations'] += 2 * npairs
